@@ -58,7 +58,7 @@ def lex(g, data, skip_ws=True, skip_nl=True, matchers=None):
         out.toks.append((best, pos, bl, line, col))
         line, col = advance(line, col, data[pos:pos + bl]); pos += bl
 
-TAG = {'V': 0, 'W': 1, 'M': 9, 'B': 8, 'T': 7}
+TAG = {'V': 0, 'W': 1, 'X': 2, 'M': 9, 'B': 8, 'T': 7}
 
 def lex_script(g, data, skip_ws=True, skip_nl=True):
     """tokens as the scripted custom lexer answers; also the expected log entry of every lexer call"""
